@@ -224,6 +224,42 @@ func runC16(cfg *Cfg, rec *ev.Rec) {
 			item++
 		}
 	}
+	// carry runs through the radix-16 recoding: a run of nibbles 7 (or f) of limb-related and other
+	// lengths at every nibble offset, entered by a carry from the nibble below (>= 8); the rest random
+	// (ninth seed wave: a carry lost at a 56-bit limb boundary of ContractWindow4)
+	for _, nib := range []byte{7, 0xf} {
+		for off := 1; off < 64; off++ {
+			for _, l := range []int{1, 2, 7, 8, 13, 14, 15, 16, 28, 64} {
+				if off+l > 63 {
+					l = 63 - off
+				}
+				if l < 1 {
+					continue
+				}
+				if cfg.mine(item) {
+					b := gen.RandBytes(rng, 32)
+					setNib := func(k int, v byte) {
+						if k%2 == 0 {
+							b[k/2] = b[k/2]&0xf0 | v
+						} else {
+							b[k/2] = b[k/2]&0x0f | v<<4
+						}
+					}
+					setNib(off-1, byte(8+rng.Intn(8)))
+					for k := off; k < off+l; k++ {
+						setNib(k, nib)
+					}
+					b[31] &= 127
+					var s sc
+					modm.ExpandRaw(&s, b)
+					var r ge25519.Ge25519
+					ge25519.ScalarmultBaseNiels(&r, &ge25519.NielsBaseMultiples, &s)
+					rec.Eval("fixed-base/carry-run")
+				}
+				item++
+			}
+		}
+	}
 	n := cfg.n(2400, 150000)
 	for i := 0; i < n; i++ {
 		if i%2 == 0 {
